@@ -773,6 +773,13 @@ impl Kernel {
 
     /// A scheduling point: some task (possibly the caller) continues.
     pub fn yield_point(self: &Arc<Self>, me: TaskId, what: impl FnOnce() -> String, h: &[u64]) {
+        self.yield_point_kind(me, what, h, true)
+    }
+
+    /// `own_step`: whether the point counts towards the task's own step count (an after-effect
+    /// point does not: it belongs to the operation whose effect it follows, so per-call step
+    /// budgets mean the same in runs with and without after-effect points).
+    fn yield_point_kind(self: &Arc<Self>, me: TaskId, what: impl FnOnce() -> String, h: &[u64], own_step: bool) {
         let mut st = self.lock();
         if st.aborting {
             drop(st);
@@ -780,7 +787,9 @@ impl Kernel {
             return;
         }
         st.steps += 1;
-        st.tasks[me].info.steps += 1;
+        if own_step {
+            st.tasks[me].info.steps += 1;
+        }
         Self::note(&mut st, me, what, h);
         if st.steps > st.step_cap {
             if st.error.is_none() {
@@ -965,7 +974,7 @@ pub fn coin(n: u64) -> bool {
 pub fn post_effect() {
     if let Some((k, me)) = current() {
         if k.post_yield {
-            k.yield_point(me, || "after-effect".to_string(), &[0x7E]);
+            k.yield_point_kind(me, || "after-effect".to_string(), &[0x7E], false);
         }
     }
 }
